@@ -33,8 +33,17 @@ KNOWN_DEEP = "C02-caught-deep"
 KNOWN_CAUGHT = "C02-caught-failure-untracked"
 
 
-def classify(deep_hit, live=None, query=None, result=None):
+KNOWN_DELETED = "C02-deleted-object-in-formula-globals"
+
+
+def classify(deep_hit, live=None, query=None, result=None, want=None):
     """known findings are recognised by their specific trigger"""
+    if want is not None and want.startswith("err Formula Deleted") and result and result.startswith("ok"):
+        # a formula calls a cells (or reads a space) through a reference whose target has been deleted:
+        # the globals of the formula still hold the bound method of the deleted implementation
+        # (its space's namespace did not change), so it keeps acting on the orphaned object, while
+        # a model that only saw the edits raises the deleted-object error
+        return KNOWN_DELETED
     # (no formula of this vocabulary can catch the recursion-limit error; that finding is C01's)
     if live is not None and result is not None and result.startswith("ok"):
         # the held value is the value of the `except` branch of a formula that caught the failure
@@ -78,7 +87,7 @@ class H(S.Hooks):
         stats["oracle_fresh_queries"] += 1
         if want != result and not ("Deep" in want or "Deep" in result):
             out.fail("%s.%s(%s) returns %s but a model to which only the edits were applied returns %s" % (
-                op[1], op[2], op[3], result, want), S.hist_json(ops, k), key=classify(deep_hit, live, (op[1], op[2]), result))
+                op[1], op[2], op[3], result, want), S.hist_json(ops, k), key=classify(deep_hit, live, (op[1], op[2]), result, want))
 
     def end(self, live, ops, out, stats):
         deep0 = deep_counter.count
@@ -95,7 +104,7 @@ class H(S.Hooks):
                 p, rest = q.rsplit(".", 1)
                 out.fail("%s returns %s but a model to which only the edits were applied returns %s" % (q, v, w),
                          S.hist_json(ops + [["eval", p, rest.split("(")[0], int(rest.split("(")[1][:-1])]]),
-                         key=classify(deep_counter.count > deep0, live, (p, rest.split("(")[0]), v))
+                         key=classify(deep_counter.count > deep0, live, (p, rest.split("(")[0]), v, w))
                 break
 
 
